@@ -232,4 +232,4 @@ LEVEL_TEXT = (
     "generated products and the large rpc values."
 )
 LEVEL_NOTE = "Trusted: the tree flattener of the harness (loads every variable); independent encoder for the inputs."
-TECHNIQUE = "metamorphic relation tree(rpc1) == tree(rpc2) over Hypothesis-generated products + exhaustive small rpc sweep"
+TECHNIQUE = "metamorphic relation tree(rpc1) == tree(rpc2) over Hypothesis-generated products + exhaustive small rpc sweep + one >1 GiB request against the file bytes"
